@@ -82,7 +82,7 @@ func TestC09(t *testing.T) {
 		t.Skip("needs the instrumented build")
 	}
 	st := statsFor("C09")
-	st.Rule = "a sequential prefix builds state, then 2-4 workers x 1-5 calls drawn from ALL public entry points (Get, GetByUUID, Exist, Count, All, AssignAll, AssignIndex, Search + And/Or + Len/Collect/One/Delete, InsertOrUpdate, Many, Bulk, Delete, DeleteAll, FlushAll, FlushAllAndCommit, Commit, Control, Schema, Create, Repair) in sync, cached and async configurations (flusher running on a 50x scaled clock). Each program runs twice on the copy whose sync.RWMutex/Mutex are wrapped: (1) single-threaded with the lock monitor: no read re-acquisition of a lock the goroutine already holds in read mode (deadlocks as soon as a writer queues), no acquisition under its own write lock, no cycle in the global acquisition-order graph; a re-entrant read is then CONFIRMED by re-running with a writer queued between the two acquisitions and observing that the call never returns; (2) concurrently with scheduling perturbation at every lock/sleep site under a progress watchdog: a hang is declared only when every unfinished worker and flusher sits in a lock acquisition on two stack samples 1.5 s apart. Settings switches through Create (async off/on, cache toggle), a second collection and Repair are worker ops; after the concurrent phase the final-consistency invariant of C08 is checked too. Evidence reports which entry points were executed. 35 % of the async programs start their workers on a handle opened on a copy of the directory taken while writes were pending (whatever a crashed process leaves, no call may block on it); InsertOrUpdateBulk is fed through an unbuffered channel by a producer that calls Count / GetByUUID on the same handle between two sends. Non-trivial: >= 1 enumerating call (All, AssignAll, search on an unindexed path, DeleteAll, Count) together with >= 1 writer, or a running flusher. Distinct by program hash."
+	st.Rule = "a sequential prefix builds state, then 2-4 workers x 1-5 calls drawn from ALL public entry points (Get, GetByUUID, Exist, Count, All, AssignAll, AssignIndex, Search + And/Or + Len/Collect/One/Delete, InsertOrUpdate, Many, Bulk, Delete, DeleteAll, FlushAll, FlushAllAndCommit, Commit, Control, Schema, Create, Repair) in sync, cached and async configurations (flusher running on a 50x scaled clock). Each program runs twice on the copy whose sync.RWMutex/Mutex are wrapped: (1) single-threaded with the lock monitor: no read re-acquisition of a lock the goroutine already holds in read mode (deadlocks as soon as a writer queues), no acquisition under its own write lock, no cycle in the global acquisition-order graph; a re-entrant read is then CONFIRMED by re-running with a writer queued between the two acquisitions and observing that the call never returns; (2) concurrently with scheduling perturbation at every lock/sleep site under a progress watchdog: a hang is declared only when every unfinished worker and flusher sits in a lock acquisition on two stack samples 1.5 s apart. Settings switches through Create (async off/on, cache toggle), a second collection and Repair are worker ops; after the concurrent phase the final-consistency invariant of C08 is checked too. Evidence reports which entry points were executed. 35 % of the async programs start their workers on a handle opened on a copy of the directory taken while writes were pending (whatever a crashed process leaves, no call may block on it); InsertOrUpdateBulk is fed through an unbuffered channel by a producer that calls Count / GetByUUID on the same handle between two sends. TestC09StorageGone: with 1-100 async writes pending (threshold and timeout out of reach, so only API calls flush) every file-system mutation fails from a generated point on; a generated series of calls (FlushAll, FlushAllAndCommit, Commit, writes, deletes, Repair, Create, reads, Control) and finally Close run under a 10 s watchdog each: they may fail, they must return. Non-trivial: >= 1 enumerating call (All, AssignAll, search on an unindexed path, DeleteAll, Count) together with >= 1 writer, or a running flusher. Distinct by program hash."
 	st.Assumptions = append(baseAssumptions(), "user Transform/Validate hooks return", "interleavings are sampled; the lock monitor is order-insensitive but only sees call paths that some generated program executes")
 	prof := c09Profile()
 	rapid.Check(t, func(rt *rapid.T) {
